@@ -10,6 +10,7 @@ connects OVER without disconnecting (see `Model.clientConnect`).  Every theorem 
 exchange drops the hypothesis "no connect while connected".
 -/
 import Switcher.Model.Life
+import Switcher.Model.ClientC
 namespace Props.C18
 open Model
 
@@ -178,6 +179,56 @@ theorem foreign_is_invisible (r : Bool) (s : ClientState) (as : List ClientAct) 
 
 /-- an operation (successful or raising) never changes the connection state -/
 theorem op_keeps_state (r : Bool) (s : ClientState) : (clientStep r s .opOk).1 = s ∧ (clientStep r s .opRaises).1 = s := ⟨rfl, rfl⟩
+
+/-! ### the code-level client (attributes `_writer` / `_reader` / `_connected`, statements in order) refines the abstract machine -/
+
+theorem client_step_refines (r : Bool) (c : ClientC) (a : ClientAct) :
+    (clientStepC r c a).2 = (clientStep r c.abs a).2 ∧ (clientStepC r c a).1.abs = (clientStep r c.abs a).1 := by
+  cases a with
+  | connectOk => exact ⟨rfl, rfl⟩
+  | connectRefused => exact ⟨rfl, rfl⟩
+  | opOk => exact ⟨rfl, rfl⟩
+  | opRaises => exact ⟨rfl, rfl⟩
+  | foreign => exact ⟨rfl, rfl⟩
+  | disconnect =>
+    refine ⟨rfl, ?_⟩
+    simp only [clientStepC, clientStep, ClientC.disconnect, clientDisconnect, ClientC.abs]
+    cases c.writer <;> rfl
+  | withBody b => exact ⟨rfl, rfl⟩
+
+/-- REFINEMENT over whole histories: the code-level client makes exactly the observations of the abstract machine and ends in a
+    state whose abstraction is the abstract machine's state -/
+theorem client_code_refines (r : Bool) : ∀ (as : List ClientAct) (c : ClientC),
+    (clientRunActsC r c as).2 = (clientRunActs r c.abs as).2 ∧ (clientRunActsC r c as).1.abs = (clientRunActs r c.abs as).1
+  | [], c => ⟨rfl, rfl⟩
+  | a :: as, c => by
+    obtain ⟨s1, s2⟩ := client_step_refines r c a
+    obtain ⟨r1, r2⟩ := client_code_refines r as (clientStepC r c a).1
+    simp only [clientRunActsC, clientRunActs]
+    rw [s2] at r1 r2
+    exact ⟨by rw [s1, r1], r2⟩
+
+/-- hence: after every history of the code-level client (on this runtime) the sockets it holds open are exactly the one its writer
+    refers to while `connected`, none otherwise -/
+theorem client_code_inv (as : List ClientAct) : Inv (clientRunActsC true clientInitC as).1.abs := by
+  rw [(client_code_refines true as clientInitC).2]
+  exact sockets_exactly_all as clientInit inv_init
+
+/-- LEAVING THE CONTEXT CLOSES, WHATEVER THE BODY RAISED: `__aexit__` does not look at `exc_type` — the state after
+    `async with` is the same for a body that returns, raises an ordinary exception, a ConnectionError, is cancelled or interrupted:
+    disconnected, and the socket the context opened is closed -/
+theorem context_exit_ignores_exception (r : Bool) (c : ClientC) (e : BodyExit) :
+    c.withBody r e = c.withBody r .normal ∧ (c.withBody r e).flag = false ∧ c.next ∉ (c.withBody r e).openS := by
+  refine ⟨rfl, ?_, ?_⟩
+  · simp [ClientC.withBody, ClientC.disconnect, ClientC.connectOk]
+  · simp [ClientC.withBody, ClientC.disconnect, ClientC.connectOk]
+
+/-- a refused connect reaches neither assignment: no attribute appears, so a later `disconnect()` still takes the "not connected"
+    branch of `hasattr(self, "_writer") and self._writer` -/
+theorem refused_connect_assigns_nothing (r : Bool) (c : ClientC) : (clientStepC r c .connectRefused).1 = c := rfl
+
+example : (clientRunActsC true clientInitC [.disconnect, .connectRefused, .connectOk, .opRaises, .disconnect, .disconnect, .withBody true, .connectOk]).1
+    = { writer := some 2, reader := some 2, flag := true, openS := [2], next := 3 } := by decide
 
 example : (clientRunActs true clientInit [.disconnect, .connectRefused, .connectOk, .opRaises, .disconnect, .disconnect, .withBody true, .connectOk]).1
     = { connected := true, current := some 2, openSocks := [2], next := 3 } := by decide
